@@ -45,10 +45,15 @@ AbstractDiscreteDistribution::AbstractDiscreteDistribution(const AbstractDiscret
   intMinMax_(adde.intMinMax_->clone()),
   median_(adde.median_),
   discretizationScheme_(adde.discretizationScheme_)
-{}
+{
+  tieParametersToOwnDomain_(*adde.intMinMax_);
+}
 
 AbstractDiscreteDistribution& AbstractDiscreteDistribution::operator=(const AbstractDiscreteDistribution& adde)
 {
+  if (this == &adde)
+    return *this;
+
   AbstractParameterAliasable::operator=(adde);
   numberOfCategories_ = adde.numberOfCategories_;
   distribution_ = adde.distribution_;
@@ -56,8 +61,23 @@ AbstractDiscreteDistribution& AbstractDiscreteDistribution::operator=(const Abst
   intMinMax_ = std::shared_ptr<IntervalConstraint>(adde.intMinMax_->clone());
   median_ = adde.median_;
   discretizationScheme_ = adde.discretizationScheme_;
+  tieParametersToOwnDomain_(*adde.intMinMax_);
 
   return *this;
+}
+
+// The parameters were copied from another distribution, constraint pointers included.  A parameter
+// that was constrained by the domain object of that distribution (restrictToConstraint of the
+// truncated exponential, constant and user-specified distributions attaches it) has to follow the
+// domain of *this* object, not the one of the source.
+void AbstractDiscreteDistribution::tieParametersToOwnDomain_(const IntervalConstraint& sourceDomain)
+{
+  for (size_t i = 0; i < getNumberOfParameters(); ++i)
+  {
+    Parameter& p = getParameter_(i);
+    if (p.hasConstraint() && p.getConstraint().get() == &sourceDomain)
+      p.setConstraint(intMinMax_);
+  }
 }
 
 /******************************************************************************/
